@@ -33,6 +33,9 @@ def requests():
         Request(IH, fn=["stir::InterfileHeader::.*", "stir::MinimalInterfileHeader::.*", "stir::InterfileImageHeader::.*"], files=["/repo/src/IO/InterfileHeader.cxx"]),
         Request(KW, fn=["stir::standardise_interfile_keyword"]),
         Request(IF, fn=["stir::read_data", "stir::write_data", "stir::detail::read_data_1d", "stir::find_scale_factor"], enum=["stir::NumericType::Type"], files=["/repo/src/include/stir/IO/.*", "/repo/src/include/stir/convert_range.inl"]),
+        Request(IF, fn=["stir::(PatientPosition|ImagingModality|TimeFrameDefinitions|ExamInfo|Radionuclide)::.*"], files=["/repo/src/include/stir/.*"]),
+        Request("src/buildblock/PatientPosition.cxx", fn=["stir::PatientPosition::.*"]),
+        Request("src/buildblock/ExamInfo.cxx", fn=["stir::ExamInfo::.*"]),
     ]
 
 
@@ -328,6 +331,117 @@ def rule_e(ctx, iofns):
     ctx.ob("C10.e-scale-factor-no-overflow", f.qn, "safety-factor", ok2, f.where(), "the scale is enlarged by a factor > 1 against rounding" if ok2 else "no safety factor > 1 on the scale")
 
 
+def rule_f_independent_keys(ctx, wfns, accfns):
+    """Exam information that is stored under separate keys is written key by key: the condition under which a (non-vectorised) key is
+    emitted may depend on the value written under that key, but not on what is stored under ANOTHER key.  Otherwise a known value is
+    dropped from the header because a different one is unknown (e.g. a known patient orientation with an unknown rotation).  Field
+    dependences of accessors are taken from their bodies (one class level); control dependence of the streamed locals is included."""
+    from engine.cfg import CFG as _CFG
+
+    bodies = {}
+    for f in accfns:
+        if f.body is not None:
+            bodies.setdefault(f.qn, f)
+
+    def acc_fields(qn, depth=0):
+        f = bodies.get(qn)
+        if f is None or depth > 3:
+            return {qn + "()"}
+        out = set()
+        for m in f.walk():
+            if m.k == "MemberExpr" and m.get("mk") == "field" and m.c and m.c[0].k == "CXXThisExpr":
+                out.add("%s.%s" % (f.cls, m.get("n")))
+            elif m.k == "CXXMemberCallExpr" and m.c and m.c[0].k == "CXXThisExpr" and m.callee and m.callee != qn:
+                out |= acc_fields(m.callee, depth + 1)
+        return out or {qn + "()"}
+
+    n = 0
+    for f in wfns:
+        ex = [p for p in f.params if "ExamInfo" in p["t"]]
+        if not ex or f.body is None or not f.cfg_raw:
+            continue
+        exk = "v%d" % ex[0]["d"]
+        defs = LocalDefs(f)
+
+        def deps(e, seen=None):
+            """fields of the exam information an expression depends on (data and control)"""
+            seen = seen if seen is not None else set()
+            out = set()
+            for m in e.walk():
+                if m.k == "CXXMemberCallExpr" and m.callee and m.c and exk in key(m.c[0]):
+                    out |= acc_fields(m.callee)
+                elif m.k == "MemberExpr" and m.get("mk") == "field" and m.c and key(m.c[0]) == exk and not (m.parent is not None and m.parent.k in ("MemberExpr", "CXXMemberCallExpr") and m.parent.c and m.parent.c[0] is m):
+                    out.add("stir::ExamInfo." + m.get("n"))
+                elif m.k == "DeclRefExpr" and m.get("dk") == "local" and m.get("d") not in seen and "stream" not in (m.type or ""):
+                    d = m.get("d")
+                    seen.add(d)
+                    vd = defs.decl.get(d)
+                    if vd is not None and vd.c:
+                        out |= deps(vd.c[0], seen)
+                    for w in defs.writes.get("v%d" % d, []):
+                        out |= deps(w, seen)
+                        for a in w.ancestors():
+                            if a.k in ("IfStmt", "SwitchStmt") and a.c:
+                                out |= deps(a.c[0], seen)
+            return out
+
+        cfg = _CFG(f)
+        emissions = []
+        for m in f.walk():
+            if m.k != "StringLiteral" or " := " not in (m.get("v") or "") + " ":
+                continue
+            txt = m.get("v") or ""
+            if not txt.rstrip().endswith(":="):
+                continue
+            top = m
+            for a in m.ancestors():
+                if a.k == "CXXOperatorCallExpr" and a.op == "<<":
+                    top = a
+                else:
+                    break
+            # operands of the chain after this literal
+            ops = []
+            node = top
+            while node.k == "CXXOperatorCallExpr" and node.op == "<<" and len(node.c) == 2:
+                ops.insert(0, node.c[1])
+                node = node.c[0].strip()
+            after = False
+            vals = []
+            for o in ops:
+                if o.strip() is m or any(x is m for x in o.walk()):
+                    after = True
+                    continue
+                if after:
+                    if o.strip().k == "StringLiteral" and " := " in (o.strip().get("v") or "") + " ":
+                        break
+                    vals.append(o)
+            emissions.append((txt.strip(), top, vals))
+        keyfields = {}
+        for txt, top, vals in emissions:
+            vf = set()
+            for v in vals:
+                vf |= deps(v)
+            keyfields[txt] = vf
+        for txt, top, vals in emissions:
+            if "[" in txt or txt.startswith("]") or not keyfields[txt]:
+                continue  # vectorised keys form one record; keys without a value from the exam information
+            guards = [a.c[0] for a in top.ancestors() if a.k == "IfStmt" and a.c]
+            # early returns that dominate the emission
+            for g in f.walk():
+                if g.k == "IfStmt" and len(g.c) == 2 and any(x.k == "ReturnStmt" for x in g.c[1].walk()) and g.c[0].i in cfg.pos and top.i in cfg.pos and cfg.dominates(g.c[0].strip(), top):
+                    guards.append(g.c[0])
+            gf = set()
+            for g in guards:
+                gf |= deps(g)
+            foreign = set()
+            for other, of in keyfields.items():
+                if other != txt:
+                    foreign |= (gf & of) - keyfields[txt]
+            ctx.ob("C10.f-independent-keys", f.qn, "key:" + standardise(txt.rstrip(":= ")), not foreign, top.where(), "emitted under conditions on its own value only (%s)" % sorted(x.split("::")[-1] for x in gf) if not foreign else "key `%s` is only written when %s - the value of another key - passes a test: a known value is dropped from the header" % (txt, sorted(x.split("::")[-1] for x in foreign)))
+            n += 1
+    return n
+
+
 def run(ctx):
     ctx.explanation = (
         "Decides: (a) every key that the Interfile image header writer (and its helpers for exam information) emits is registered or "
@@ -356,11 +470,14 @@ def run(ctx):
         return out
 
     ifns, hfns, kwf, iof = fl(us[0]), fl(us[1]), fl(us[2]), fl(us[3])
+    accf = fl(us[4]) + fl(us[5]) + fl(us[6])
     rule_a(ctx, ifns, hfns, kwf)
     rule_b(ctx, ifns, iof)
     rule_c(ctx, iof, us[3].enums)
     rule_d(ctx, ifns)
     rule_e(ctx, iof)
+    rule_f_independent_keys(ctx, ifns, accf)
+    ctx.require_count("C10.f-independent-keys", 4)
     ctx.require_count("C10.a-header-keys-agree", 25)
     ctx.require_count("C10.b-short-file-is-error", 2)
     ctx.require_count("C10.c-number-types-exhaustive", 3)
